@@ -90,14 +90,34 @@ def gcBack (al : Nat → List Nat) (retLive : Live) : List Step → List Step ×
       | none => sc.1
     (s :: (sc.2.reverse ++ r.1), live)
 
-/-- `Program.GC`.  `none` = the two panics (empty program, last instruction
-is not `ret`).  The return values are live at the end. -/
-def gcPass (prog : List Step) : Option (List Step) :=
+/-- `Program.GC` with the alias table as a parameter.  `none` = the two panics
+(empty program, last instruction is not `ret`).  The return values are live
+at the end. -/
+def gcPassWith (al : Nat → List Nat) (prog : List Step) : Option (List Step) :=
   match prog.getLast? with
   | none => none
   | some last =>
     if last.op != .ret then none
-    else some (gcBack (aliasesOf prog) (last.ins.map (·.id)) prog).1
+    else some (gcBack al (last.ins.map (·.id)) prog).1
+
+/-- `Program.GC` as it is: the table of DIRECT aliases through the seven
+operands of its `case` list. -/
+def gcPass (prog : List Step) : Option (List Step) := gcPassWith (aliasesOf prog) prog
+
+/-- Proposed fix (not in /repo): the alias table closed under ALL rewiring
+operands (the seven plus `concat`), transitively.  `fuel` = program length
+bounds the chain length because a value is defined before it is used. -/
+def rewiredFrom (prog : List Step) (v : Nat) : List Nat :=
+  prog.filterMap fun s => if s.op.rewires && s.reads v then s.outId else none
+
+def aliasClosure (prog : List Step) : Nat → Nat → List Nat
+  | 0, _ => []
+  | fuel + 1, v =>
+    let d := rewiredFrom prog v
+    d ++ d.flatMap (aliasClosure prog fuel)
+
+def gcPassFixed (prog : List Step) : Option (List Step) :=
+  gcPassWith (aliasClosure prog prog.length) prog
 
 /-! ## Wire allocator and id rewiring -/
 
